@@ -188,12 +188,17 @@ func c20StdRoundtrip(args []string) int {
 	out := C20StdOut{LoadFailed: map[string]string{}, Requested: len(job.Pkgs)}
 	gopherjspkg.RegisterFS(http.FS(os.DirFS(repoDir())))
 	seen := map[string]bool{}
+	// one session for all requested packages (dependencies are parsed once); after a failed
+	// load the session is replaced so that a half-loaded import cannot poison the others
+	var s *gbuild.Session
 	for _, path := range job.Pkgs {
-		// a session per requested package: a failing import must not poison the others
-		s, err := gbuild.NewSession(&gbuild.Options{NoCache: true})
-		if err != nil {
-			out.LoadFailed[path] = err.Error()
-			continue
+		if s == nil {
+			var err error
+			if s, err = gbuild.NewSession(&gbuild.Options{NoCache: true}); err != nil {
+				out.LoadFailed[path] = err.Error()
+				s = nil
+				continue
+			}
 		}
 		pkg, err := s.XContext().Import(path, "", 0)
 		if err == nil {
@@ -201,6 +206,7 @@ func c20StdRoundtrip(args []string) int {
 		}
 		if err != nil {
 			out.LoadFailed[path] = err.Error()
+			s = nil
 			continue
 		}
 		for _, srcs := range s.GetSortedSources() {
